@@ -1,36 +1,56 @@
 (* C01 — Every solver solution is grammar-valid and satisfies the constraint.
    Only statements + `exact`; proofs: Solver/Sound.v, RulesFacts.v, SolveSound.v, PredStable.v,
-   SolveSoundMore.v (proof extension).
-   Models: Solver/State.v (acceptance check), Solver/Rules.v + RulesMore.v (abstract rule system).
+   SolveSoundMore.v (proof extension 2), SolveSoundMore3.v (proof extension 3).
+   Models: Solver/State.v (acceptance check), Solver/Rules.v + RulesMore.v + RulesMore3.v (abstract
+   rule system).
 
    FULL STATEMENT (not proved about the Python code; see strength below):
      every tree returned by ISLaSolver.solve() is closed, a derivation tree of the grammar rooted at
      the start symbol, its string is in the language, and it satisfies the solver's constraint under
      the specification semantics — for every prefix of the sequence of solve() calls.
-   STRENGTH: PARTIAL.  (a) C01_solve_sound_partial2 (proof extension; supersedes
-   C01_solve_sound_partial, which is kept) is about an ABSTRACT transition system that
-   over-approximates the elimination chain of solve().  NOW RULES WITH PROVED SOUNDNESS (were
-   premises): tree insertion for EVERY method mask (C01_local_sound_insert + C13:
-   C01_insert_tree_step / _any_mask), removal of universal quantifiers over OPEN in-trees
-   (C01_local_sound_infeasible + C06 reachability; without match expression the guard is the
-   computed might-match test, C01_infeasible_guard_from_qmm; WITH a match expression the rule keeps
-   the semantic guard me_settled — completeness of can_extend_leaf_... is not proved), definite
-   verdicts of count (C01_count_true_stable / C01_count_false_stable + C14 count_decide).
-   STILL PREMISES: SMT elimination (H_smt), universal numeric quantifiers (H_numq), semantic
-   predicates that answer with a tree binding (H_sem_search: count's insertion search, class
-   K_count), each in the weaker form "preserves the invariant inv" (implied by the old sound_rel +
-   root label kept: C01_refines_preserves), and the evaluated grammar check reach_closedb g.
+   STRENGTH: PARTIAL.  (a) C01_solve_sound_partial3 (proof extension 3; supersedes
+   C01_solve_sound_partial2 and C01_solve_sound_partial, both kept) is about an ABSTRACT transition
+   system that over-approximates the elimination chain of solve().  It has NO premise about any
+   step relation any more (only the evaluated grammar check reach_closedb g): every step is a RULE
+   WITH PROVED LOCAL SOUNDNESS:
+     - core rules (split, nnf, matching, expansion, ExistsInt := some numeral), stable evaluation;
+     - tree insertion for EVERY method mask (C13), removal of universals over OPEN in-trees (C06),
+       definite verdicts of count (C14)                                     [proof extension 2];
+     - SMT ELIMINATION (C01_local_sound_smt).  H_smt is decomposed: C01_smt_step_sound_given_model
+       derives the rule's guards from (i) the ONLY external fact "the assignment Z3 returns satisfies
+       the literals it was given" (meaning over strings, satom_sden), and (ii) reconstruction facts
+       proved for the modelled components: the trees come from the parser (C10_parse_sound:
+       C01_smt_tree_of_parse) or create_fixed_length_tree (C14_cflt_sound: C01_smt_tree_of_cflt)
+       and are substituted at pairwise independent positions.  Guard that stays: every rebuilt tree
+       is a COMPLETION of the subtree it replaces (automatic for open leaves — the only case with
+       optimized Z3 queries; for a partially expanded instantiated tree the parser must return its
+       completion: not proved for ambiguous grammars);
+     - COUNT'S INSERTION SEARCH (C01_local_sound_count_search): H_sem_search is discharged OUTSIDE
+       K_count — guard: the result c is substituted in place (compl in-tree c); its count guards are
+       C14's count_target_met (C01_count_search_step_of_finish).  Inside K_count (replacement
+       dropped by substitute) the step is REFUTED in the rule system too (C01_count_dropped_refuted);
+     - NUMERIC QUANTIFIERS: ExistsInt = r_exists_int (prophecy of the numeral Z3 picks later; the
+       SMT rule accepts variables bound to numerals) + the shortcut drop (C01_local_sound_drop_stable);
+       ForallInt BY ENUMERATION AS THE CODE DOES IT (one instance replaces the quantifier, no
+       exhaustiveness test) is REFUTED (C01_forall_int_inst_refuted; reproduced on /repo: a NEW
+       defect, see design notes) and proved sound under the guard only_value_matters
+       (C01_local_sound_forall_int_partial, C01_forall_int_exh_of_smt); the special-case
+       transformation is sound (C01_local_sound_forall_int_transform).
+   WHAT IS STILL PARTIAL: the rule system is an abstraction (no trace conformance); semantic guards
+   inside rules: me_settled (universal with match expression over an open in-tree), the compl guards
+   of r_smt / r_count_search, only_value_matters, stable_g; and the external Z3 fact above.
    The old premise H_insert (sound_rel of insertion) is UNSATISFIABLE for insertions that move host
    nodes (C01_insert_not_refinement_refuted): soundness of insertion rests on re-conjoining the
-   original formula, not on refinement; the invariant is now relative to the initial state.
+   original formula, not on refinement; the invariant is relative to the initial state.
    (b) The full statement is
    REFUTED for constraints with nth (C01_eval_unsound_nth: the evaluation step the code performs
    without a stability side condition adds a non-solution; reproduced on the implementation, known
-   finding K_nth) and, on the implementation, for count (K_count, inside the premise H_sem_search).
+   finding K_nth), on the implementation for count (K_count) and for `forall int` (enumeration).
    (c) The tie to /repo is the runtime check of every returned tree by sol_check
    (C01_checked_solution_valid / _complete). *)
-From ISLA Require Import PredStable SolveSoundMore.
+From ISLA Require Import PredStable SolveSoundMore SolveSoundMore3.
 From ISLA Require Eval3 Insert InsertFacts InsertSelfMore InsertCtxMore FixedLen.
+From ISLA Require Earley EarleyPrune.
 From Coq Require Import ZArith.
 
 (* ---- runtime acceptance check ---- *)
@@ -333,3 +353,234 @@ Example C01_solve_sound2_nonvacuous :
   preserves (inv Run2Example.g Run2Example.nt_s 0 Run2Example.cst Run2Example.phi) R.
 Proof. exact solve_sound2_example. Qed.
 Print Assumptions C01_solve_sound2_nonvacuous.
+
+(* ==================================================================== *)
+(* PROOF EXTENSION 3 (Solver/RulesMore3.v, Solver/SolveSoundMore3.v): the three remaining premises
+   of C01_solve_sound_partial2 become RULES with proved local soundness: SMT elimination (given the
+   Z3 model), count's insertion search (C14), numeric quantifiers                                   *)
+(* ==================================================================== *)
+
+(* ---- vocabulary: refinement on grammar-valid states ---- *)
+Theorem C01_refines_wf_def : forall g R,
+  refines_wf g R <->
+  (forall s s', R s s' -> wf_tree g (snd s) ->
+     lbl (snd s') = lbl (snd s) /\ wf_tree g (snd s') /\ (forall t', Sol g s' t' -> Sol g s t')).
+Proof. exact refines_wf_def. Qed.
+Print Assumptions C01_refines_wf_def.
+
+Theorem C01_refines_wf_preserves : forall g start i0 cst phi R,
+  refines_wf g R -> preserves (inv g start i0 cst phi) R.
+Proof. exact refines_wf_preserves. Qed.
+Print Assumptions C01_refines_wf_preserves.
+
+(* ---- (1) SMT elimination (eliminate_all_semantic_formulas / eliminate_semantic_formula) ---- *)
+(* the rule: the new tree is a grammar-valid completion of the old one; every conjunct that
+   disappears is an SMT literal over ground variables (closed subtrees of the new tree, numerals)
+   that is TRUE on the new tree *)
+Theorem C01_smt_rule_def : forall g s s',
+  smt_solve_step g s s' <->
+  exists solved,
+    compl (snd s) (snd s') /\ wf_tree g (snd s') /\
+    (forall c, In c (fst s) -> In c (fst s') \/ In c solved) /\
+    (forall b f, In (b, f) solved ->
+       exists neg a, f = plit neg (FSmt a) /\ vars_ground (snd s') b (satom_vars a) /\
+                     models satom_denote (snd s') b f).
+Proof. exact smt_solve_step_def. Qed.
+Print Assumptions C01_smt_rule_def.
+
+Theorem C01_local_sound_smt : forall g, refines g (smt_solve_step g).
+Proof. exact smt_solve_refines. Qed.
+Print Assumptions C01_local_sound_smt.
+
+(* SMT literals over ground variables (closed subtrees or numerals) are stable *)
+Theorem C01_stable_smt_ground : forall t b a, vars_ground t b (satom_vars a) ->
+  stable t b (FSmt a) /\ stable t b (FNot (FSmt a)).
+Proof. exact stable_smt_ground. Qed.
+Print Assumptions C01_stable_smt_ground.
+
+(* H_smt DECOMPOSED.  The only external premise is the last one: the assignment Z3 returns (mu on
+   the positions of the instantiated trees; numeric constants carry their numeral) satisfies the
+   literals it was given (satom_sden: SMT-LIB meaning over STRINGS).  Reconstruction premises (met
+   by the modelled parser and create_fixed_length_tree: next two theorems): every rebuilt tree is a
+   closed grammar-valid completion of the subtree it replaces and spells mu.  Then what Python does
+   (tree.substitute(solution), solved conjuncts dropped, other conjuncts re-anchored by path) is a
+   step of the rule. *)
+Theorem C01_smt_step_sound_given_model :
+  forall g cs cs' solved t t1 sol (mu : path -> str),
+  wf_tree g t -> pairwise_indep (map fst sol) ->
+  (forall p r, In (p, r) sol ->
+     exists old, subtree t p = Some old /\ compl old r /\ wf_tree g r /\
+                 is_openT r = false /\ yield r = mu p) ->
+  replace_all t sol = Some t1 ->
+  (forall c, In c cs -> In c cs' \/ In c solved) ->
+  (forall b f, In (b, f) solved ->
+     exists neg a, f = plit neg (FSmt a) /\
+       (forall v, In v (satom_vars a) ->
+          (exists p, b v = Some (VPos p) /\ In p (map fst sol)) \/ (exists n, b v = Some (VNum n))) /\
+       (if neg then ~ satom_sden a (sigma mu b) else satom_sden a (sigma mu b))) ->
+  smt_solve_step g (cs, t) (cs', t1).
+Proof. exact smt_step_sound_given_model. Qed.
+Print Assumptions C01_smt_step_sound_given_model.
+
+(* the string of a numeric constant is its canonical numeral *)
+Theorem C01_num_str_dec : forall n, num_str n = dec n.
+Proof. exact num_str_dec. Qed.
+Print Assumptions C01_num_str_dec.
+
+(* the SMT-LIB meaning over strings is the meaning over the yields of the assigned trees *)
+Theorem C01_satom_strings : forall a e, satom_denote a e <-> satom_sden a (strs e).
+Proof. exact satom_denote_sden. Qed.
+Print Assumptions C01_satom_strings.
+
+(* reconstruction by the modelled Earley parser (C10_parse_sound) for an open leaf ... *)
+Theorem C01_smt_tree_of_parse : forall fxA fxB fuel g cstart start w k ts r t p i,
+  EarleyPrune.good_grammar g -> NoDup (map fst g) -> defined g Earley.WRAP = false ->
+  defined g start = true -> defined g cstart = true ->
+  (fxA = true \/ Earley.K_multistart g start = false) ->
+  (fxB = true \/ Earley.K_recstart g cstart start = false) ->
+  Earley.earley_parse fxA fxB fuel g cstart start w k = Ok ts -> In r ts ->
+  subtree t p = Some (Node start i true []) ->
+  exists old, subtree t p = Some old /\ compl old r /\ wf_tree g r /\ is_openT r = false /\ yield r = w.
+Proof. exact sol_entry_of_parse. Qed.
+Print Assumptions C01_smt_tree_of_parse.
+
+(* ... and by create_fixed_length_tree (C14_cflt_sound; Z3 only fixed the length n) *)
+Theorem C01_smt_tree_of_cflt : forall g A n fuel o r t p i,
+  is_nt A = true -> FixedLen.cflt fuel g A n o = FixedLen.Found r ->
+  subtree t p = Some (Node A i true []) ->
+  (exists old, subtree t p = Some old /\ compl old r /\ wf_tree g r /\ is_openT r = false) /\
+  length (yield r) = n.
+Proof. exact sol_entry_of_cflt. Qed.
+Print Assumptions C01_smt_tree_of_cflt.
+
+(* ... where an atom on str.len holds of every string of that length *)
+Theorem C01_smt_len_atom : forall (m : var -> option str) v u op k n,
+  m v = Some u -> length u = n -> cmp_holds op (Z.of_nat n) k -> satom_sden (SLen op (SVar v) k) m.
+Proof. exact slen_of_length. Qed.
+Print Assumptions C01_smt_len_atom.
+
+(* ---- (2) semantic predicates answering with a tree binding: count's insertion search ---- *)
+Theorem C01_count_search_rule_def : forall g s s',
+  count_search_step g s s' <->
+  exists cs1 cs2 b x needle a3 (neg : bool) t p s0 c t1 k,
+    s = (cs1 ++ (b, plit neg (count_atom x needle a3)) :: cs2, t) /\ s' = (cs1 ++ cs2, t1) /\
+    b x = Some (VPos p) /\ subtree t p = Some s0 /\ num_val b a3 k /\ is_nt needle = true /\
+    compl s0 c /\ wf_tree g c /\
+    (if neg then N.of_nat (count_lbl needle c) <> k else N.of_nat (count_lbl needle c) = k) /\
+    (forall r n, subtree c r = Some n -> opn n = true -> Eval3.reachb g (lbl n) needle = false) /\
+    Insert.replace_at t p c = Some t1.
+Proof. exact count_search_step_def. Qed.
+Print Assumptions C01_count_search_rule_def.
+
+(* the premise H_sem_search, discharged outside K_count: the result c is substituted IN PLACE (c is
+   a completion of the in-tree: what the path-based re-anchoring subtree_solutions presupposes) *)
+Theorem C01_local_sound_count_search : forall g,
+  Eval3.reach_closedb g = true -> refines_wf g (count_search_step g).
+Proof. exact count_search_refines. Qed.
+Print Assumptions C01_local_sound_count_search.
+
+(* every result of the modelled completion loop of count() (C14 finish_candidate, with the computed
+   reachability) that is a completion of the in-tree gives a step of the rule: the two count guards
+   are C14_count_result_target_met *)
+Theorem C01_count_search_step_of_finish :
+  forall g fuel cs1 cs2 (b : env) (x : var) needle a3 t p s cand c t1 k,
+  b x = Some (VPos p) -> subtree t p = Some s -> num_val b a3 k -> is_nt needle = true ->
+  shape_ok cand = true ->
+  FixedLen.finish_candidate (Eval3.reachb g) fuel g needle cand = FixedLen.FinTree c ->
+  N.of_nat (FixedLen.count_nodes needle cand) = k ->
+  compl s c -> wf_tree g c ->
+  Insert.replace_at t p c = Some t1 ->
+  count_search_step g (cs1 ++ (b, count_atom x needle a3) :: cs2, t) (cs1 ++ cs2, t1).
+Proof. exact count_search_step_of_finish. Qed.
+Print Assumptions C01_count_search_step_of_finish.
+
+(* the class K_count in the rule system: the conjunct is dropped but the tree is NOT substituted
+   (DerivationTree.substitute filtered the nested replacement) — adds a non-solution *)
+Theorem C01_count_dropped_refuted : exists g s s' t',
+  count_search_dropped s s' /\ Sol g s' t' /\ ~ Sol g s t'.
+Proof. exact count_dropped_unsound. Qed.
+Print Assumptions C01_count_dropped_refuted.
+
+(* any conjunct whose truth survives every grammar-valid completion may be dropped (the shortcut of
+   eliminate_existential_integer_quantifiers: evaluate() already finds `exists int` true) *)
+Theorem C01_local_sound_drop_stable : forall g, refines g (drop_stable_g g).
+Proof. exact drop_stable_refines. Qed.
+Print Assumptions C01_local_sound_drop_stable.
+
+(* ---- (3) universal numeric quantifiers (instantiate_universal_integer_quantifiers) ---- *)
+(* FULL STATEMENT (what the code does: replace `forall int i: body` by ONE instance body[i := n], no
+   guard) is REFUTED; reproduced on /repo (design_notes/C01.md) *)
+Theorem C01_forall_int_inst_refuted : exists g s s' t',
+  forall_int_inst s s' /\ Sol g s' t' /\ ~ Sol g s t'.
+Proof. exact forall_int_inst_unsound. Qed.
+Print Assumptions C01_forall_int_inst_refuted.
+
+Theorem C01_forall_int_exh_rule_def : forall g s s',
+  forall_int_exh g s s' <->
+  exists cs1 cs2 b v body n t,
+    s = (cs1 ++ (b, FForallInt v body) :: cs2, t) /\
+    s' = (cs1 ++ (upd b v (VNum n), body) :: cs2, t) /\
+    (forall n' t', n' <> n -> compl t t' -> wf_tree g t' -> is_openT t' = false ->
+       models satom_denote t' (upd b v (VNum n')) body).
+Proof. exact forall_int_exh_def. Qed.
+Print Assumptions C01_forall_int_exh_rule_def.
+
+(* sound under the guard "n is the only value that matters" ... *)
+Theorem C01_local_sound_forall_int_partial : forall g, refines g (forall_int_exh g).
+Proof. exact forall_int_exh_refines. Qed.
+Print Assumptions C01_local_sound_forall_int_partial.
+
+(* ... which holds when the SMT disjuncts over the bound variable alone are falsified by n only *)
+Theorem C01_forall_int_exh_of_smt : forall g t b v fs n,
+  (forall n', n' <> n -> exists a, In (FSmt a) fs /\ (forall w, In w (satom_vars a) -> w = v) /\
+                                   satom_sden a (only_num v n')) ->
+  only_value_matters g t b v (FOr fs) n.
+Proof. exact forall_int_exh_of_smt. Qed.
+Print Assumptions C01_forall_int_exh_of_smt.
+
+(* the special-case transformation  forall int i: exists e in w: not count(e, N, i)
+   ==> exists int i: (exists e' in w: count(e', N, i)) and (exists e in w: not count(e, N, i)) *)
+Theorem C01_local_sound_forall_int_transform : forall g, refines g forall_int_transform.
+Proof. exact forall_int_transform_refines. Qed.
+Print Assumptions C01_local_sound_forall_int_transform.
+
+(* ---- the abstract solver: every step is a rule ---- *)
+(* FULL STATEMENT would be about solve() itself.  Here: NO premise about any step relation is left;
+   what remains external sits in the GUARDS of the rules (Z3's model satisfies its input:
+   C01_smt_step_sound_given_model; in-place results: compl guards of r_smt / r_count_search; the
+   semantic guards me_settled, only_value_matters, stable_g) and in the abstraction itself (no trace
+   conformance). *)
+Theorem C01_solve_sound_partial3 : forall g start i0 cst phi s,
+  Eval3.reach_closedb g = true -> is_nt start = true -> defined g start = true ->
+  reachable3 g cst phi (init_state start i0 cst phi) s -> final s ->
+  valid_solution g start cst phi (snd s).
+Proof. exact solve_sound_partial3. Qed.
+Print Assumptions C01_solve_sound_partial3.
+
+Theorem C01_step3_def : forall g cst phi s s',
+  step3 g cst phi s s' <->
+  (core_step g s s' \/ eval_step_stable s s' \/ eval_step_stable_g g s s' \/
+   infeasible_drop g s s' \/ insert_step g cst phi s s' \/
+   smt_solve_step g s s' \/
+   (forall_int_exh g s s' \/ forall_int_transform s s') \/
+   (count_search_step g s s' \/ drop_stable_g g s s')).
+Proof. exact step3_def. Qed.
+Print Assumptions C01_step3_def.
+
+Theorem C01_reachable3_def : forall g cst phi s0 s,
+  reachable3 g cst phi s0 s <->
+  reachable2 g cst phi (smt_solve_step g)
+             (fun s s' => forall_int_exh g s s' \/ forall_int_transform s s')
+             (fun s s' => count_search_step g s s' \/ drop_stable_g g s s') s0 s.
+Proof. exact (fun g cst phi s0 s => iff_refl _). Qed.
+Print Assumptions C01_reachable3_def.
+
+(* non-vacuity: a 7-step run — split, ForallInt instantiated by its only relevant value, choice of a
+   disjunct, COUNT SEARCH on the open root, a second count atom over the numeral, existential match,
+   SMT STEP from a Z3 model and a rebuilt tree — reaching a final state *)
+Example C01_solve_sound3_nonvacuous :
+  reachable3 Run3Example.g Run3Example.cst Run3Example.phi
+             (init_state Run3Example.nt_s 0 Run3Example.cst Run3Example.phi) ([], Run3Example.t2) /\
+  final ([], Run3Example.t2) /\ Eval3.reach_closedb Run3Example.g = true.
+Proof. exact solve_sound3_example. Qed.
+Print Assumptions C01_solve_sound3_nonvacuous.
